@@ -13,8 +13,8 @@ import re
 
 import vplib as V
 
-PROPS = ["C01", "C02", "C05", "C08", "C09", "C10", "C12", "C14", "C15"]
-FIRST_RUN = {"C02": 8000, "C01": 0, "C05": 1000, "C08": 2000, "C09": 3000, "C10": 4000, "C12": 5000, "C14": 6000, "C15": 7000}
+PROPS = ["C01", "C02", "C05", "C08", "C09", "C10", "C11", "C12", "C13", "C14", "C15"]
+FIRST_RUN = {"C11": 9000, "C13": 10000, "C02": 8000, "C01": 0, "C05": 1000, "C08": 2000, "C09": 3000, "C10": 4000, "C12": 5000, "C14": 6000, "C15": 7000}
 
 
 def env_for(pid):
@@ -141,6 +141,10 @@ def _set(e, path, val):
 
 
 SELFTESTS = {
+    "C11": (lambda e: e["op"] == "iface" and e["fk"] and len(e["sent"]) == 1,
+            lambda e: e["sent"].append([e["sent"][0][0] + 1, "data"]), "iface-next-hops-and-cache", "a frame sent to a second next hop"),
+    "C13": (lambda e: e["op"] == "recv" and e["res"] == "data" and e["fk"] and len(e["post"]["cache"]) > 0,
+            lambda e: e["post"]["cache"].pop(), "recv-data-cache", "a learned address missing from the table"),
     "C02": (lambda e: e["op"] == "recv" and e["res"] == "data" and e["tag"] == "data" and e["orig"][0] > 0,
             lambda e: _set(e, ["orig"], [e["orig"][0], e["orig"][1] + 7]), "opened-only-if-sealed-for-this-connection",
             "a payload datagram sealed by another instance of the peer opened"),
